@@ -723,7 +723,7 @@ func init() {
 		Rule: "histories 'call1' + up to 3 (4 in thorough) events over {call2 (deadline), call3, a call issued with an already-ended context, a Batch of two calls and a notification answered member by member or cancelled, notify, malformed member bearing a pending id, reply1, reply2, error reply, cancel1, cancel2, deadline passes, Close, peer EOF, transport failure, malformed record, " +
 			"server callback with stubborn handler, its release} and racing pairs (reply||cancel, reply||Close, cancel||Close, EOF||Close, ...), settle + state-set reference model after every event; " +
 			"fault enumeration: for every history of length <= 3 the k-th Send and the k-th Recv of the client's channel fail, for every k up to the number the fault-free run performed; channels whose Close does / does not unblock Recv; " +
-			"delay-bounded schedules on the racing histories. distinct_nontrivial = distinct (history, fault, flavour, delay set) containing at least two ending events",
+			"delay-bounded schedules on the racing histories; the callers' contexts carry explicit causes (WithCancelCause / WithTimeoutCause), the context's own error must be reported. distinct_nontrivial = distinct (history, fault, flavour, delay set) containing at least two ending events",
 		Assumptions: []string{
 			"Go 1.26.8 runtime and testing/synctest (virtual time for deadlines, quiescence for 'has not returned')",
 			"the peer closes its end after the client closed (teardown)",
